@@ -297,7 +297,8 @@ NamesStatusT(texts, err, st) ==
 TagTruthy(tg) == tg.truthy = 1
 RetStep(m, ev) ==
     LET api == ev.api IN
-    IF ev.outcome = "hang" THEN Bad(m, "C10:hang")
+    IF api = "construct" THEN Bad(m, "C15:rejected-valid")                 \* scenarios only use path strings of the grammar
+    ELSE IF ev.outcome = "hang" THEN Bad(m, "C10:hang")
     ELSE IF ev.outcome = "exc" /\ ev.pycomm = 0 THEN Bad(m, "C10:foreign-exception+C13:foreign-exception")
     ELSE IF api \in {"close", "exit"} /\ ev.connected # 0 THEN Bad(m, "C10:close-state")
     ELSE IF api \in {"close", "exit"} /\ ~m.closeFault /\ m.alive /\ ev.faulted = 0
